@@ -29,7 +29,109 @@ def run(ctx: Ctx) -> Collector:
     _shutdown(ctx, c)
     _stops(ctx, c)
     _start_proc(ctx, c)
+    _unawaited(ctx, c)
+    _shared_class_state(ctx, c)
     return c
+
+
+def _unawaited(ctx: Ctx, c: Collector) -> None:
+    """A coroutine that is created must run: a call of a coroutine function of the package is awaited, handed to
+    something (create_task, gather, a collection, a caller of a plain function) -- never returned un-awaited from a
+    coroutine or dropped as a statement.  (`return self._out.stop()` in `async def stop` hands the caller's `await`
+    a coroutine object: the wrapped simulator is never stopped.)"""
+    import ast as _ast
+    prog = ctx.prog
+    by_name: Dict[str, List[FuncInfo]] = {}
+    for f in prog.all_functions():
+        if not isinstance(f.node, _ast.Lambda) and f.cls is not None:
+            by_name.setdefault(f.name, []).append(f)
+    async_names = {n for n, fs in by_name.items() if fs and all(f.is_async for f in fs)}
+    from ..types import Typer
+    typer = Typer(prog)
+    n = 0
+    bad = 0
+    for fi in analysis_units(prog):
+        if isinstance(fi.node, _ast.Lambda):
+            continue
+        s = summarise(prog, fi)
+        for e in s.of_kind("call"):
+            if e.awaited or e.term[0] != "call":
+                continue
+            f = e.term[1]
+            is_co = f[0] == "glob" and f[1] in prog.functions and prog.functions[f[1]].is_async
+            if f[0] == "attr" and f[2] in async_names:
+                # decided by the receiver's class where the annotations give one; by the method name otherwise
+                try:
+                    rt = typer.unopt(typer.type_of(f[1], typer.event_env(fi, e)))
+                except Exception:
+                    rt = ("any",)
+                if rt[0] == "cls":
+                    m = prog.find_method(rt[1], f[2])
+                    is_co = m is not None and m.is_async
+                else:
+                    is_co = rt[0] == "any"
+            if not is_co:
+                continue
+            n += 1
+            st = e.stmt
+            dropped = isinstance(st, _ast.Expr) and st.value is e.node
+            returned = isinstance(st, _ast.Return) and st.value is e.node and fi.is_async
+            if dropped or returned:
+                bad += 1
+                c.bad("unawaited", fi.qualname, f"{T.show(e.term)[:60]}", ("the coroutine is returned un-awaited from a coroutine: whoever awaits this function gets a coroutine object, "
+                      "and what it wraps never runs" if returned else "the coroutine is created and dropped: it never runs"), ctx.loc(fi, e))
+    if not bad:
+        c.ok("unawaited", "mosaik.*", "coroutines of the package are awaited or handed on", f"{n} un-awaited creations, all handed to a task / waiter / caller", "")
+
+
+def _shared_class_state(ctx: Ctx, c: Collector) -> None:
+    """One simulator's proxy, runner or buffer shares nothing mutable with another's: a synchronisation object or a
+    container created in a class body exists once for all instances (a lock taken by one in-process simulator while
+    its generator is suspended in a request to another one blocks that other one for ever)."""
+    import ast as _ast
+    n = 0
+    for ci in ctx.prog.classes.values():
+        for st in ci.node.body:
+            tgt, val = None, None
+            if isinstance(st, _ast.Assign) and len(st.targets) == 1 and isinstance(st.targets[0], _ast.Name):
+                tgt, val = st.targets[0].id, st.value
+            elif isinstance(st, _ast.AnnAssign) and isinstance(st.target, _ast.Name) and st.value is not None:
+                tgt, val = st.target.id, st.value
+            if tgt is None or tgt.startswith("__"):
+                continue
+            shared = None
+            if isinstance(val, (_ast.List, _ast.Dict, _ast.Set)):
+                shared = "container"
+            elif isinstance(val, _ast.Call):
+                d = ast_dotted(val.func)
+                if d is not None and d.rsplit(".", 1)[-1] in ("Lock", "Event", "Condition", "Semaphore", "BoundedSemaphore", "Queue", "Future", "dict", "list", "set", "defaultdict", "deque", "count"):
+                    shared = d
+            if shared is None:
+                continue
+            n += 1
+            # used through an instance in a way that changes it (or takes it)?
+            used = []
+            for m in ci.methods.values():
+                if isinstance(m.node, _ast.Lambda) or not m.params:
+                    continue
+                me = m.params[0]
+                for nd in _ast.walk(m.node):
+                    if isinstance(nd, _ast.Attribute) and nd.attr == tgt and isinstance(nd.value, _ast.Name) and nd.value.id == me and isinstance(nd.ctx, _ast.Load):
+                        used.append(m.name)
+            rebinds = any(isinstance(nd, _ast.Attribute) and nd.attr == tgt and isinstance(nd.ctx, _ast.Store) for m in ci.methods.values() if m.name in ("__init__", "__post_init__") for nd in _ast.walk(m.node))
+            if used and not rebinds:
+                c.bad("shared", ci.qualname, f"{tgt} = {shared}", f"created once in the class body and used through self in {sorted(set(used))}: every instance shares it", f"{ci.module.relpath}:{st.lineno}")
+    c.ok("shared", "mosaik.*", "no mutable object is created in a class body and used through instances", f"{n} class-level objects looked at", "")
+
+
+def ast_dotted(node) -> Optional[str]:
+    import ast as _ast
+    if isinstance(node, _ast.Name):
+        return node.id
+    if isinstance(node, _ast.Attribute):
+        b = ast_dotted(node.value)
+        return None if b is None else b + "." + node.attr
+    return None
 
 
 def _is_create_task(t: Term) -> bool:
